@@ -271,7 +271,7 @@ def run_sched(bindir, mode, arg_path, timeout=1200):
 
 
 JUDGE_KEEP = {"ev", "t", "fn", "ok", "loc", "ord", "os", "of", "res", "woken", "kind", "run", "blocked", "cut", "cause",
-              "try_ok", "get_mut", "into_inner", "fact", "compiles"}
+              "try_ok", "get_mut", "into_inner", "fact", "compiles", "n"}
 
 
 def judge_runs(chk, runs, tag, batch=150000):
@@ -356,6 +356,7 @@ def describe(code, fn, r):
         "lost_wakeup": "run ended with thread(s) %s parked in FUTEX_WAIT inside %s, every other thread finished and no guard outstanding" % (r["end"]["blocked"], fn),
         "deadlock_with_holder": "run ended with parked threads",
         "panic": "a lock operation panicked: %s" % next((e.get("msg") for e in r["events"] if e["ev"] == "panic"), ""),
+        "unbounded_spin": "%s re-reads the unchanged lock word >= 4096 times in a row without ever parking (a holder that is not scheduled meanwhile is starved: SCHED_FIFO on one CPU never returns)" % fn,
         "data_lost": "get_mut / into_inner on the quiescent lock do not deliver the value the write accesses left",
         "access_without_guard": "harness accessed data without a guard",
     }.get(code, code)
@@ -1085,6 +1086,10 @@ class LockCheck:
             if bindir_rel:
                 self.stress(chk, bindir_rel, dict(stress, kind=self.lock, seed=chk.seed, scenarios=False,
                                                   sections=max(500, stress["sections"] // 2)), key="real_futex_stress_release_build")
+        timed = sum(1 for r in pending for e in r["events"] if e["ev"] == "wait" and e.get("timeout"))
+        chk.extra["futex_waits_with_timeout"] = timed
+        if timed:
+            drift.append({"why": "%d FUTEX_WAIT calls of the lock carry a timeout: the model's waits have none" % timed})
         chk.nontrivial = self.nontrivial
         chk.rule = self.rule
         chk.extra["transition_tour"] = tour_stats
